@@ -1,7 +1,7 @@
 """C05 — segment analysis verdicts are true of the real machine."""
 from lib import core, gen
 
-LEVEL = 'other'
+LEVEL = 'proof'
 GOALS = ['halt', 'blank', 'spin']
 SEGS = [2, 3, 4, 5, 6, 7, 8]
 
